@@ -28,7 +28,18 @@ second / third top-level computation in the same case (`more`); bodies that fail
 argument values that are falsy / None / empty containers / objects with unusual __bool__, __repr__, value-__eq__ made fresh
 for every call / large ints (equal, never identical) / ("p<n>", value) tuples; long *rest tuples; and the FAN-OUT family:
 n = 20 .. 2200 (thorough: .. 8300) distinct keys in flight at the same time (blocked on a batch, or created and never
-run), then repeated calls for the oldest / middle / newest keys - the number of simultaneous entries is a parameter."""
+run), then repeated calls for the oldest / middle / newest keys - the number of simultaneous entries is a parameter.
+
+Round 4 dimensions (interactions): the DECORATION PHASE is part of the case (`deco`: which deduplicate() object and which
+asynq() object decorates which function, in which order - one object on several functions with different signatures; Lean:
+DecoObj / decorateAll, C12_keygetter_per_function; the header carries `(deco n (fn obj)...)` and the driver runs the model's
+decoration phase); EVENTS OF OTHER FEATURES are operations of the history (Lean: Op.outside - a no-op of the model, `unit` and
+an unchanged len(tasks) for the observer): a debug option switched in mid-flight (12 options), a garbage collection,
+asynq.mock.patch entered and left on the function, the synchronous call f(args), the function used in asyncio mode (await
+f.asyncio(..) / f.asynq(..) inside a running fn.asyncio()) while asynq-mode calls of the same key are in flight; tasks that
+were created by one thread are DRIVEN to completion by another (`drive`: .value() on thread th, at top level); bodies blocked
+on asynq's own debug.sync() batch; bound wrappers kept and used again, copy.copy() of a bound wrapper, receiver instances
+that are copy.copy() of each other; top-level activity between two computations (`top2`)."""
 import hashlib
 import json
 import random
@@ -36,7 +47,7 @@ import random
 PID = "C12"
 LEVEL = "proof"
 LEAN_MODULES = ["AsynqModel.Theorems.C12"]
-THEOREMS = [
+HEADLINE = [
     "AsynqModel.Dedup.C12_spec_holds_partial",
     "AsynqModel.Dedup.C12_spec_holds_sigs",
     "AsynqModel.Dedup.C12_spec_needs_histOk",
@@ -58,7 +69,16 @@ THEOREMS = [
     "AsynqModel.Dedup.C12_one_creation_per_period",
     "AsynqModel.Dedup.C12_shared_while_calm",
     "AsynqModel.Dedup.C12_body_starts_once",
+    "AsynqModel.Dedup.C12_inflight_survives_outside",
+    "AsynqModel.Dedup.C12_keygetter_per_function",
+    "AsynqModel.Dedup.C12_decoration_agrees_with_step",
 ]
+# true by construction of the model (no code path in tools.py either); their content is the correspondence
+BY_CONSTRUCTION = [
+    "AsynqModel.Dedup.C12_thread_end_noop",
+    "AsynqModel.Dedup.C12_outside_noop",
+]
+THEOREMS = HEADLINE + BY_CONSTRUCTION
 BUILDS = {"quick": ["py"], "thorough": ["py", "cy"]}
 RULE = ("real asynq programs: 1-3 @deduplicate() functions (function / method on 1-3 instances / staticmethod; generated "
         "signatures with defaults, keyword-only, positional-only (15%), *args, **kwargs; argument values from small ints, the "
@@ -78,12 +98,22 @@ RULE = ("real asynq programs: 1-3 @deduplicate() functions (function / method on
         "value-equal objects / str subclass made fresh per call, ints >= 1000), *rest of 6-12 elements, and the fan-out "
         "family with the number n of simultaneously in-flight keys as parameter (quick n in 20..2200, thorough up to 8300; "
         "4 layouts: one function / two functions / method on 3 instances / 3 threads; blocked on a batch or never run); "
+        "round 4 (interactions): 40% of the cases with >= 2 functions apply ONE deduplicate() object (and, half of them, one "
+        "asynq() object) to several functions in a random order; 30% of the cases contain events of other features in "
+        "mid-flight (12 debug options switched, gc.collect(), asynq.mock.patch entered and left, the synchronous call "
+        "f(args)) in actors and inside bodies; 22% have top-level activity before / between computations: leftover tasks "
+        "driven to completion by another thread or by the creating one, the function used in asyncio mode in 3 ways, "
+        "further calls / dirty(); bodies block on debug.sync() (1 step in 11); 12% of the calls through an instance use "
+        "a kept bound wrapper or a copy.copy() of it; receiver instances that are copies of each other; plus the named "
+        "interaction schedules (one object on 14 pairs / 9 triples of different signatures in both orders, "
+        "create-here-complete-there for value / failure / debug.sync bodies x 4 thread pairs, asyncio mode before and "
+        "while in flight, every option switched while blocked, wrappers and copies); "
         "non-trivial = at least two calls and at least one call that returned an already existing "
         "task or re-created a task for a call seen before; distinct by hash of the case")
 TRUSTED = [
     "hand-written Lean model AsynqModel.Lib.Dedup tied to the code by this differential run only",
     "Python harness checks/c12.py (token <-> object identity mapping, event log written by the generated bodies, "
-    "len(DeduplicateDecorator.tasks) peek)",
+    "len(DeduplicateDecorator.tasks) peek, identification of the deduplicate() / asynq() objects of the decoration phase)",
     "Python call binding incl. positional-only parameters (modelled by Sig.bind, compared with what every started body "
     "actually received), CPython generator send/throw semantics, qcore.decorators (decorate / DecoratorBase.__get__ / "
     "get_original_fn)",
@@ -100,7 +130,20 @@ ASSUMPTIONS = [
     "of value TOKENS (normal form KeyElem.ofVal), so two "
     "distinct values whose hashes collide (-1 / -2, objects with a constant __hash__) are two different tokens and are "
     "generated on purpose; equal values of different types (1 == 1.0 == True) are one value",
-    "functions stay alive while their tasks are in flight (id(self.fn) is not reused); asyncio mode is C15's",
+    "functions stay alive while their tasks are in flight (id(self.fn) is not reused: the task holds the function); in "
+    "asyncio mode .asynq() hands the call to .asyncio() before a key is made, so the statement ('returns the very same "
+    "task') does not speak about asyncio mode (C15's subject); what IS judged here: asyncio-mode use of the function makes, "
+    "uses and removes no table entry (an `outside` event)",
+    "events of other features (option switch, gc, mock.patch enter+exit, synchronous call, asyncio-mode use) are atomic "
+    "for the history: bodies they start themselves (synchronous call / asyncio mode) return at once and are not logged; "
+    "COLLECT_PERF_STATS is not among the switched options (switched on in mid-flight it breaks every older task in the "
+    "pure-Python build - a defect of the profiling option, reported in INTEGRATION.md, not a matter of deduplicate); an "
+    "option that dumps is replaced by KEEP_DEPENDENCIES when an argument of the case cannot be printed",
+    "`drive` happens at top level only (no scheduler is running on the main thread), on tasks that have not started; the "
+    "acts a body would issue from inside are skipped while it runs on the driving thread",
+    "@deduplicate() is applied to @asynq() generator functions only: @asynq(pure=True) functions have no .asynq attribute "
+    "(AttributeError at the first call, by construction of PureAsyncDecorator) and @async_proxy() functions may return "
+    "futures that are not tasks (no `running` attribute; see INTEGRATION.md) - neither is part of the statement",
     "receiver instances compare by identity (two instances that are == share a key by design of the key)",
     "one thread token per threading.Thread OBJECT (slot + 3 * incarnation); a retired thread is joined before its "
     "threadEnd is logged and never calls again; a new helper thread that did not get the ident of a finished, logged "
@@ -208,10 +251,15 @@ def spell(rng, fi, decl, lc, nthreads, malformed=False):
         if rng.random() < 0.75:
             recv = ["inst", inst]
             first = 1
+            if rng.random() < 0.12:
+                # a bound wrapper kept by the caller and used again / a copy.copy() of it (not a fresh `obj.f` each time)
+                recv.append(rng.choice(["stored", "copy"]))
         else:
             recv = "cls"
     elif decl["kind"] == "static":
         recv = "cls" if rng.random() < 0.6 else ["inst", 0]
+        if recv != "cls" and rng.random() < 0.12:
+            recv.append(rng.choice(["stored", "copy"]))
     rest = lc["rest"]
     po = decl.get("posonly", 0)
     if rest:
@@ -258,7 +306,29 @@ def spell(rng, fi, decl, lc, nthreads, malformed=False):
     return [fi, recv, args, kw, th]
 
 
-def gen_body(rng, calls):
+NOFN = ("retire", "opt", "gc", "drive")       # acts whose second element is not a function index
+# (COLLECT_PERF_STATS is not in the list: switched on while tasks exist it makes every task created BEFORE the switch fail
+# at completion in the pure-Python build - AsyncTask.to_str reads self._id, which __init__ sets only when the option is
+# already on.  That is a defect of the profiling option (C20's subject), not of deduplicate; see INTEGRATION.md.)
+OPTS = ["KEEP_DEPENDENCIES", "DUMP_NEW_TASKS", "DUMP_CONTINUE_TASK", "DUMP_SCHEDULE_BATCH",
+        "DUMP_FLUSH_BATCH", "DUMP_COMPUTED", "DUMP_DEPENDENCIES", "DUMP_QUEUED_RESULTS", "DUMP_YIELD_RESULTS",
+        "DUMP_SCHEDULE_TASK", "DUMP_SYNC", "DUMP_EXCEPTIONS"]
+
+
+def gen_outside(rng, calls):
+    """an event of another feature in mid-flight: a debug / profiling option is switched, the garbage collector runs,
+    asynq.mock.patch replaces and restores a function, the synchronous call f(args) of a deduplicated function"""
+    r = rng.random()
+    if r < 0.5:
+        return ["opt", rng.randrange(len(OPTS))]
+    if r < 0.6:
+        return ["gc"]
+    if r < 0.8:
+        return ["mock"] + calls(0.0)[:1]
+    return ["sync"] + calls(0.0)
+
+
+def gen_body(rng, calls, outside=False):
     steps = []
     for _ in range(rng.choice([0, 1, 1, 1, 2, 2, 3])):
         pre = []
@@ -273,7 +343,9 @@ def gen_body(rng, calls):
                     pre.append(["call"] + calls())
                 else:
                     pre.append(["dirty"] + calls())
-        y = rng.choices(["item", "fail", "last", "lastsync"], weights=[6, 1, 2, 1])[0]
+        if outside and rng.random() < 0.15:
+            pre.append(gen_outside(rng, calls))
+        y = rng.choices(["item", "fail", "last", "lastsync", "dsync"], weights=[6, 1, 2, 1, 1])[0]
         steps.append({"pre": pre, "y": y})
     post = []
     if rng.random() < 0.15:
@@ -303,7 +375,8 @@ def gen_case(rng):
             sp[4] = rng.randrange(1, nthreads)
         return sp
 
-    bodies = [gen_body(rng, calls) for _ in range(rng.choice([1, 2, 3]))]
+    outside = rng.random() < 0.3      # events of other features in mid-flight (options, gc, mock.patch, f(args))
+    bodies = [gen_body(rng, calls, outside) for _ in range(rng.choice([1, 2, 3]))]
     def gen_actors(choices):
         actors = []
         for _ in range(rng.choice(choices)):
@@ -313,6 +386,8 @@ def gen_case(rng):
                 for _ in range(rng.choice([0, 1, 1, 2, 2, 3])):
                     if p_retire and rng.random() < p_retire:
                         acts.append(["retire", rng.randrange(1, nthreads)])
+                    elif outside and rng.random() < 0.12:
+                        acts.append(gen_outside(rng, calls))
                     elif rng.random() < 0.82:
                         acts.append(["callx" if rng.random() < p_x else "call"] + calls())
                     else:
@@ -332,6 +407,38 @@ def gen_case(rng):
     if rng.random() < (0.15 if not churn else 0.5):
         # further top-level computations on the same thread: whatever the earlier ones left in the table is still there
         case["more"] = [gen_actors([1, 1, 2]) for _ in range(rng.choice([1, 1, 2]))]
+    # ---- round 4: interactions -------------------------------------------------------------------------------------
+    if nf >= 2 and rng.random() < 0.4:
+        # ONE deduplicate() object applied to several functions (and one asynq() object likewise), in any order
+        groups = rng.choice([[0] * nf, [0] * nf, [rng.randrange(2) for _ in range(nf)]])
+        order = list(range(nf))
+        if rng.random() < 0.5:
+            rng.shuffle(order)
+        case["deco"] = {"outer": groups, "inner": [rng.randrange(2) for _ in range(nf)] if rng.random() < 0.5 else list(range(nf)),
+                        "order": order}
+    if rng.random() < 0.12 and ninst > 1 and any(d["kind"] == "method" for d in fns):
+        case["instcopy"] = 1      # the instances 1.. are copy.copy() of instance 0
+    if rng.random() < 0.22:
+        # top level, between the first computation and the later ones: leftover tasks are driven to completion by
+        # ANOTHER thread than the one that created them (or by the creating one), the functions are used in asyncio
+        # mode, called synchronously, called again
+        acts = []
+        for _ in range(rng.choice([1, 2, 3, 4])):
+            r = rng.random()
+            if r < 0.4:
+                acts.append(["drive", rng.randrange(4), rng.randrange(3)])
+            elif r < 0.55:
+                acts.append(["aio"] + calls(0.0)[:4] + [rng.randrange(3)])
+            elif r < 0.7:
+                acts.append(gen_outside(rng, calls))
+            else:
+                acts.append([rng.choice(["call", "call", "callx", "dirty"])] + calls(0.02))
+        where = "top2" if (rng.random() < 0.7 or "top" in case) else "top"
+        if where == "top":
+            acts = [[rng.choice(["call", "callx"])] + calls(0.0) for _ in range(rng.choice([1, 2]))] + acts
+        case[where] = acts
+        if "more" not in case and rng.random() < 0.7:
+            case["more"] = [gen_actors([1, 1, 2])]
     return case
 
 
@@ -563,6 +670,93 @@ def toplevel_schedules():
     return json.loads(json.dumps(cases))
 
 
+def interaction_schedules():
+    """round 4: this property's mechanism together with another feature, or used in a rarely seen way"""
+    cases = []
+    one_item = {"steps": [{"pre": [], "y": "item"}], "post": [], "end": "ret"}
+    two_items = {"steps": [{"pre": [], "y": "item"}, {"pre": [], "y": "item"}], "post": [], "end": "ret"}
+    dsync = {"steps": [{"pre": [], "y": "dsync"}, {"pre": [], "y": "item"}, {"pre": [], "y": "dsync"}], "post": [], "end": "ret"}
+    failing = {"steps": [{"pre": [], "y": "item"}], "post": [], "end": "raise"}
+
+    def sp(decl, fi, inst=0):
+        s1, s2, s3 = two_spellings(decl, inst)
+        return ["call", fi] + s1, ["call", fi] + s2, ["call", fi] + s3
+
+    # (1) ONE deduplicate() object applied to two / three functions with different signatures, in both orders, with and
+    # without a shared asynq() object: every function normalises ITS OWN signature (spellings share, other keys do not),
+    # in the same yield and in a later step while the first call is blocked
+    for a, b in ((0, 1), (0, 2), (2, 0), (1, 0), (4, 5), (5, 4), (0, 4), (6, 0), (3, 0), (0, 3), (8, 9), (7, 0), (0, 7), (9, 2)):
+        for order in ([0, 1], [1, 0]):
+            A, B = SIGS[a], SIGS[b]
+            a1, a2, a3 = sp(A, 0)
+            b1, b2, b3 = sp(B, 1)
+            deco = {"outer": [0, 0], "inner": [0, 0] if (a + b + order[0]) % 2 else [0, 1], "order": order}
+            cases.append({"fns": [A, B], "ninst": 2, "deco": deco, "bodies": [two_items], "actors": [
+                [{"acts": [b1, a1, b3, a3], "wait": "mine"}],
+                [{"acts": [b2, a2], "wait": "mine"}],
+                [{"acts": [], "wait": "tick"}, {"acts": [a2, b2, b1, a1, b3, a3], "wait": "mine"}]]})
+    A, B, Cc = SIGS[0], SIGS[2], SIGS[5]
+    for order in ([0, 1, 2], [2, 1, 0], [1, 2, 0]):
+        for outer in ([0, 0, 0], [0, 1, 0], [1, 0, 0]):
+            a1, a2, a3 = sp(A, 0)
+            b1, b2, b3 = sp(B, 1)
+            c1, c2, c3 = sp(Cc, 2)
+            cases.append({"fns": [A, B, Cc], "ninst": 2, "deco": {"outer": outer, "inner": [0, 0, 0], "order": order},
+                          "bodies": [one_item], "actors": [
+                [{"acts": [a1, b1, c1, a2, b2, c2, a3, b3, c3], "wait": "mine"}, {"acts": [c2, b2, a2], "wait": "mine"}]]})
+    # (2) created by one thread, driven to completion by ANOTHER (top level, nothing else in flight): afterwards the key is
+    # free again for the creating thread - value and failure; then a computation uses the same keys
+    for decl in (SIGS[0], SIGS[4], SIGS[6]):
+        c1, c2, c3 = sp(decl, 0)
+        for body in (one_item, failing, dsync):
+            for creator, driver in ((0, 1), (1, 0), (1, 2), (0, 0)):
+                def on(c, th=creator, op=None):
+                    return [op or c[0]] + c[1:5] + [th]
+                cases.append({"fns": [decl], "ninst": 2, "bodies": [body],
+                              "top": [on(c1), on(c2), on(c3, op="callx"), ["drive", 0, driver], on(c2), on(c1), ["drive", 0, driver],
+                                      on(c1), ["drive", 1, driver], on(c3)],
+                              "actors": [[{"acts": [on(c1), on(c2), on(c3)], "wait": "mine"}]]})
+    # (3) the function used in asyncio mode (await f.asyncio(..) / f.asynq(..) inside a running fn.asyncio()) before anything,
+    # and while an asynq-mode call of the same key is in flight (leftover of the first computation): no entry is made,
+    # used or removed
+    for decl in (SIGS[0], SIGS[4], SIGS[6], SIGS[2]):
+        c1, c2, c3 = sp(decl, 0)
+        for variant in (0, 1, 2):
+            aio1, aio2 = ["aio"] + c1[1:5] + [variant], ["aio"] + c2[1:5] + [variant]
+            cases.append({"fns": [decl], "ninst": 2, "bodies": [one_item],
+                          "top": [aio1, ["callx"] + c1[1:], aio2, c2, aio1],
+                          "actors": [[{"acts": [["callx"] + c3[1:], c1], "wait": "mine"}]],
+                          "top2": [aio2, ["aio"] + c3[1:5] + [variant], c3, ["drive", 0, 0], aio1],
+                          "more": [[[{"acts": [c3, c2, c1], "wait": "mine"}]]]})
+    # (4) events of other features while the call is blocked: every debug / profiling option switched on (and off again)
+    # in mid-flight, a garbage collection, asynq.mock.patch entered and left, the synchronous call f(args)
+    for decl in (SIGS[0], SIGS[5], SIGS[6]):
+        c1, c2, c3 = sp(decl, 0)
+        for k in range(len(OPTS)):
+            cases.append({"fns": [decl], "ninst": 2, "bodies": [dsync if k % 2 else two_items], "actors": [
+                [{"acts": [c1], "wait": "mine"}, {"acts": [c2, ["opt", k], c1], "wait": "mine"}],
+                [{"acts": [], "wait": "tick"}, {"acts": [["opt", k], c2, ["gc"], c1, c3], "wait": "mine"},
+                 {"acts": [c2, ["opt", k]], "wait": "mine"}]]})
+        cases.append({"fns": [decl], "ninst": 2, "bodies": [two_items], "actors": [
+            [{"acts": [c1], "wait": "mine"}],
+            [{"acts": [], "wait": "tick"}, {"acts": [["mock", 0], c2, ["sync"] + c1[1:], c1, ["gc"], ["sync"] + c3[1:], c3, c2],
+                                            "wait": "mine"}]]})
+    # (5) bound wrappers kept and used again, copies of bound wrappers, copies of instances
+    for decl in (SIGS[4], SIGS[5], SIGS[9]):
+        for instcopy in (0, 1):
+            c1, c2, c3 = sp(decl, 0)
+            o1, o2, o3 = sp(decl, 0, inst=1)
+
+            def how(c, h):
+                return c[:2] + [c[2] + [h]] + c[3:]
+            cases.append({"fns": [decl], "ninst": 2, "instcopy": instcopy, "bodies": [two_items], "actors": [
+                [{"acts": [how(c1, "stored"), c2, how(c1, "copy"), how(o1, "stored"), o2], "wait": "mine"}],
+                [{"acts": [], "wait": "tick"},
+                 {"acts": [how(c2, "stored"), how(o2, "copy"), how(c1, "stored"), ["dirty"] + how(o1, "copy")[1:], o1, c1,
+                           how(c3, "copy")], "wait": "mine"}]]})
+    return json.loads(json.dumps(cases))
+
+
 def sharers_case(n):
     """n callers (alternating spellings) of only three keys - one of them hot - in the same yield, and again while blocked"""
     sig = {"kind": "func", "pos": [[1, None], [2, 1]], "kwonly": [], "varargs": False, "varkw": False}
@@ -617,6 +811,23 @@ def fanout_cases(tier, rng):
     return cases
 
 
+def all_acts(case):
+    """every act of a case (actors of all computations, top level, inside the bodies)"""
+    for acs in [case.get("actors", [])] + list(case.get("more", [])):
+        for ac in acs:
+            for ph in ac:
+                for a in ph["acts"]:
+                    yield a
+    for a in list(case.get("top", [])) + list(case.get("top2", [])):
+        yield a
+    for b in case.get("bodies", []):
+        for st in b["steps"]:
+            for a in st["pre"]:
+                yield a
+        for a in b.get("post", []):
+            yield a
+
+
 def corpus():
     import glob
     import os
@@ -631,7 +842,7 @@ def corpus():
 def plan(tier, seed):
     rng = random.Random(seed * 1000003 + 12)
     n = 6000 if tier == "quick" else 60000
-    cases = corpus() + named_schedules() + thread_schedules() + toplevel_schedules()
+    cases = corpus() + named_schedules() + thread_schedules() + toplevel_schedules() + interaction_schedules()
     cases += [sharers_case(n) for n in ([300, 2500] if tier == "quick" else [300, 2500, 20000])]
     frng = random.Random(seed * 7919 + 1212)
     cases += fanout_cases(tier, frng)
@@ -649,17 +860,35 @@ def shrink(case):
             if 3 <= m < n:
                 yield fanout_case(m, variant)
         return
-    if case.get("top"):
-        for i in range(len(case["top"])):
+    for key in ("top", "top2"):
+        if case.get(key):
             c = clone()
-            del c["top"][i]
-            if not c["top"]:
-                del c["top"]
+            del c[key]
             yield c
-    if case.get("cls"):
-        c = clone()
-        del c["cls"]
+            for i in range(len(case[key])):
+                c = clone()
+                del c[key][i]
+                if not c[key]:
+                    del c[key]
+                yield c
+    for key in ("cls", "instcopy"):
+        if case.get(key):
+            c = clone()
+            del c[key]
+            yield c
+    if case.get("deco"):
+        c = clone()                        # every function its own deduplicate() / asynq() object
+        del c["deco"]
         yield c
+        nf = len(case["fns"])
+        if case["deco"]["order"] != list(range(nf)):
+            c = clone()
+            c["deco"]["order"] = list(range(nf))
+            yield c
+        if case["deco"]["inner"] != list(range(nf)):
+            c = clone()
+            c["deco"]["inner"] = list(range(nf))
+            yield c
     if case.get("more"):
         c = clone()
         c["more"].pop()
@@ -714,13 +943,17 @@ def shrink(case):
             yield c
     # drop an unused trailing function
     used = {a[1] for acs in [case["actors"]] + case.get("more", []) for ac in acs for ph in ac for a in ph["acts"]
-            if a[0] != "retire"}
-    used |= {a[1] for a in case.get("top", [])}
-    used |= {a[1] for b in case["bodies"] for st in b["steps"] for a in st["pre"] if len(a) > 1}
-    used |= {a[1] for b in case["bodies"] for a in b.get("post", []) if len(a) > 1}
+            if a[0] not in NOFN}
+    used |= {a[1] for a in case.get("top", []) + case.get("top2", []) if a[0] not in NOFN}
+    used |= {a[1] for b in case["bodies"] for st in b["steps"] for a in st["pre"] if len(a) > 1 and a[0] not in NOFN}
+    used |= {a[1] for b in case["bodies"] for a in b.get("post", []) if len(a) > 1 and a[0] not in NOFN}
     if len(case["fns"]) > 1 and (len(case["fns"]) - 1) not in used:
         c = clone()
         c["fns"].pop()
+        if c.get("deco"):
+            last = len(c["fns"])
+            c["deco"] = {"outer": c["deco"]["outer"][:last], "inner": c["deco"]["inner"][:last],
+                         "order": [i for i in c["deco"]["order"] if i != last]}
         yield c
 
 
@@ -728,20 +961,22 @@ def neighbours(case, rng):
     for _ in range(32):
         c = gen_case(rng)
         c["fns"] = json.loads(json.dumps(case["fns"]))
-        c["ninst"] = case["ninst"]
+        c["ninst"] = max(c["ninst"], case["ninst"])      # instance tokens in the generated spellings stay valid
         nf = len(c["fns"])
 
         def fix(a):
-            if len(a) > 1 and a[1] >= nf:
+            if len(a) > 1 and a[0] not in NOFN and a[1] >= nf:
                 a[1] = a[1] % nf
         for acs in [c["actors"]] + c.get("more", []):
             for ac in acs:
                 for ph in ac:
                     for a in ph["acts"]:
-                        if a[0] != "retire":
-                            fix(a)
-        for a in c.get("top", []):
+                        fix(a)
+        for a in c.get("top", []) + c.get("top2", []):
             fix(a)
+        c.pop("deco", None)
+        if case.get("deco"):
+            c["deco"] = json.loads(json.dumps(case["deco"]))
         for b in c["bodies"]:
             for st in b["steps"]:
                 for a in st["pre"]:
@@ -770,9 +1005,13 @@ class BaseErr(BaseException):
 
 
 def run_case(case):
+    import copy
+    import gc
     import inspect
+    import io
     import threading
     import time
+    import types
 
     import asynq
     import asynq.scheduler
@@ -780,6 +1019,8 @@ def run_case(case):
     from asynq.tools import DeduplicateDecorator, deduplicate
 
     DeduplicateDecorator.tasks.clear()   # process-wide table: leftovers of earlier cases in this worker
+    alive = [True]        # False once the case is over: a body of THIS case that an even later case happens to resume (a
+                          # batch the scheduler of the thread kept after a BaseException escaped) must not touch anything
     fns_decl = case["fns"]
     ninst = case["ninst"]
     log = []
@@ -787,6 +1028,7 @@ def run_case(case):
     objs = []             # keep every task alive (identity tokens)
     tok_of = {}
     spelling_of = {}      # task token -> the spelling that created it
+    made_on_tok = {}      # task token -> token of the thread that created it
     started = set()
     resumed = {}
     done = set()
@@ -828,9 +1070,29 @@ def run_case(case):
 
     H = Hooks()
     cls_dict = {}
-    plain = {}
+    plain = types.SimpleNamespace()      # module-like holder of the plain functions (so that mock.patch.object can reach them)
     raw_sig = {}
-    for fi, d in enumerate(fns_decl):
+    # the decoration phase: which deduplicate() object and which asynq() object decorates which function, in what order
+    deco = case.get("deco") or {}
+    nfn = len(fns_decl)
+    outer_of = [g % max(1, nfn) for g in deco.get("outer", [])][:nfn]
+    outer_of += list(range(len(outer_of), nfn)) if not deco else [0] * (nfn - len(outer_of))
+    inner_of = list(deco.get("inner", []))[:nfn]
+    inner_of += list(range(len(inner_of), nfn)) if not deco else [0] * (nfn - len(inner_of))
+    order = [i for i in deco.get("order", []) if isinstance(i, int) and 0 <= i < nfn]
+    order = list(dict.fromkeys(order)) + [i for i in range(nfn) if i not in order]
+    outer_objs, inner_objs = {}, {}
+    if len(set(outer_of)) < nfn:
+        feat("one-deduplicate-object-on-several-functions")
+        if len({json.dumps([fns_decl[i]["pos"], fns_decl[i]["kwonly"], fns_decl[i]["varargs"], fns_decl[i]["varkw"]])
+                for i in range(nfn)}) > 1:
+            feat("shared-deduplicate-object-different-signatures")
+    if len(set(inner_of)) < nfn:
+        feat("one-asynq-object-on-several-functions")
+    if order != list(range(nfn)):
+        feat("decorated-in-another-order")
+    for fi in order:
+        d = fns_decl[fi]
         params = []
         for i, (nm, df) in enumerate(d["pos"]):
             params.append("p%d" % nm if df is None else "p%d=%d" % (nm, df))
@@ -852,9 +1114,14 @@ def run_case(case):
         exec(src, ns)
         # the seldom spelled-out keyword: keygetter=None is the default key
         raw_sig[fi] = inspect.signature(ns["body%d" % fi])
-        fn = (deduplicate(keygetter=None) if fi % 2 else deduplicate())(asynq.asynq()(ns["body%d" % fi]))
+        g, h = outer_of[fi], inner_of[fi]
+        if g not in outer_objs:
+            outer_objs[g] = deduplicate(keygetter=None) if g % 2 else deduplicate()
+        if h not in inner_objs:
+            inner_objs[h] = asynq.asynq()
+        fn = outer_objs[g](inner_objs[h](ns["body%d" % fi]))
         if d["kind"] == "func":
-            plain[fi] = fn
+            setattr(plain, "f%d" % fi, fn)
         elif d["kind"] == "method":
             cls_dict["f%d" % fi] = fn
         else:
@@ -869,6 +1136,10 @@ def run_case(case):
         feat("receiver-falsy")
     C = type("C", (object,), cls_dict)
     insts = [C() for _ in range(max(1, ninst))]
+    if case.get("instcopy"):
+        insts[0].note = ["an attribute"]
+        insts = [insts[0]] + [copy.copy(insts[0]) for _ in insts[1:]]     # distinct objects: distinct receivers
+        feat("receiver-instances-are-copies")
     inst_tok = {id(o): 100 + i for i, o in enumerate(insts)}
 
     class Coll(object):
@@ -959,13 +1230,25 @@ def run_case(case):
             return 51
         return x
 
+    stored = {}
+
     def target(fi, recv):
         d = fns_decl[fi]
         if d["kind"] == "func":
-            return plain[fi]
+            return getattr(plain, "f%d" % fi)
         if recv == "cls" or recv == "none":
             return getattr(C, "f%d" % fi)
-        return getattr(insts[recv[1] % len(insts)], "f%d" % fi)
+        i = recv[1] % len(insts)
+        if len(recv) > 2:
+            # a bound wrapper the caller keeps and uses again (second use of the same object), or a copy.copy() of it
+            if (fi, i) in stored:
+                feat("bound-wrapper-used-again")
+            b = stored.setdefault((fi, i), getattr(insts[i], "f%d" % fi))
+            if recv[2] == "copy" and d["kind"] == "method":
+                feat("bound-wrapper-copied")
+                return copy.copy(b)
+            return b
+        return getattr(insts[i], "f%d" % fi)
 
     # ---- helper threads: one Thread OBJECT per (slot, incarnation); the thread object is part of the key ----------
     # `retire slot` joins the thread of the slot; the next call on the slot starts a new thread (a new token).  All helper
@@ -1012,10 +1295,10 @@ def run_case(case):
                 return r
             raise r
 
-        def stop(self):
+        def stop(self, patience=2):
             self.req = None
             self.go.set()
-            self.th.join(2)
+            self.th.join(patience)
 
     def on_thread(th, f):
         if th == 0:
@@ -1043,9 +1326,12 @@ def run_case(case):
         if th == 0 or th not in workers:
             return
         w = workers.pop(th)
-        w.stop()
-        if w.th.is_alive():              # never observed; keep the token (nothing is logged)
-            workers[th] = w
+        w.stop(15)                       # the thread has been told to end: on an overloaded machine this can take a while
+        if w.th.is_alive():
+            # never observed.  The thread will end as soon as it gets the CPU and must not be used again (a call on it
+            # would wait for ever): the slot starts a new incarnation, only the threadEnd observation is not logged
+            incarnation[th] = incarnation.get(th, 0) + 1
+            feat("thread-retire-timeout")
             return
         dead_idents.add(w.ident)
         log.append("(obs (threadEnd %d) (unit) %d)" % (thtok(th), size()))
@@ -1059,6 +1345,8 @@ def run_case(case):
                                        " ".join("(%d %d)" % (n, v) for n, v in kw), thtok(th))
 
     def do_call(fi, recv, args, kw, th, inside=None, keep=True):
+        if not alive[0]:
+            return None, False
         fi = fi % len(fns_decl)
         th = th % 3
         if fns_decl[fi]["kind"] == "func":
@@ -1066,7 +1354,7 @@ def run_case(case):
         elif recv == "none":
             recv = "cls"
         if not isinstance(recv, str):
-            recv = ["inst", recv[1] % len(insts)]
+            recv = ["inst", recv[1] % len(insts)] + list(recv[2:3])
         kw = [[n, v] for n, v in dict((n, v) for n, v in kw).items()]   # what a dict literal would keep
         head = "(call %s)" % fmt_spell(fi, recv, args, kw, th)
         a = [val(x) for x in args]
@@ -1092,6 +1380,7 @@ def run_case(case):
                     objs.append(task)
                     t = tok_of[id(task)]
                     spelling_of[t] = (fi, recv, list(args), [list(x) for x in kw], th)
+                    made_on_tok[t] = thtok(th)
 
                     def cb(_task, t=t):
                         done.add(t)
@@ -1146,6 +1435,8 @@ def run_case(case):
         return task, new
 
     def do_dirty(fi, recv, args, kw, th):
+        if not alive[0]:
+            return
         fi = fi % len(fns_decl)
         th = th % 3
         if fns_decl[fi]["kind"] == "func":
@@ -1153,7 +1444,7 @@ def run_case(case):
         elif recv == "none":
             recv = "cls"
         if not isinstance(recv, str):
-            recv = ["inst", recv[1] % len(insts)]
+            recv = ["inst", recv[1] % len(insts)] + list(recv[2:3])
         kw = [[n, v] for n, v in dict((n, v) for n, v in kw).items()]
         head = "(dirty %s)" % fmt_spell(fi, recv, args, kw, th)
         a = [val(x) for x in args]
@@ -1180,8 +1471,140 @@ def run_case(case):
     big = [0]
     computation = [0]
 
+    # ---- events of other features (Lean: Op.outside) ----------------------------------------------------------------
+    main_thread = threading.current_thread()
+    sync_tag = "%s-%x" % (case.get("id", 0), id(log))
+    foreign = [0]            # > 0: bodies started now do not belong to the history (synchronous call / asyncio mode)
+    dbg = asynq.debug.options
+    saved_opts = {}
+    sink = (asynq.debug.stdout, asynq.debug.stderr)
+    asynq.debug.stdout = io.StringIO()          # the DUMP_* options write there; keep it out of the worker's pipes
+    asynq.debug.stderr = io.StringIO()
+    printable = not any(75 in (a[3] if len(a) > 4 and isinstance(a[3], list) else []) or
+                        any(kv[1] == 75 for kv in (a[4] if len(a) > 4 and isinstance(a[4], list) else []))
+                        for a in all_acts(case))
+
+    def outside(what):
+        log.append("(obs (outside %d) (unit) %d)" % (what, size()))
+
+    def do_opt(k):
+        name = OPTS[k % len(OPTS)]
+        if name.startswith("DUMP_") and not printable:
+            name = "KEEP_DEPENDENCIES"           # an argument whose __repr__ raises cannot be dumped (C20's business)
+        saved_opts.setdefault(name, getattr(dbg, name))
+        setattr(dbg, name, not getattr(dbg, name))
+        feat("option-switched-in-mid-flight:" + name)
+        if any(t in started and t not in done for t in range(len(objs))):
+            feat("option-switched-while-a-body-is-suspended")
+        outside(2)
+
+    def args_of(fi, recv, args, kw):
+        fi = fi % len(fns_decl)
+        if fns_decl[fi]["kind"] == "func":
+            recv = "none"
+        elif recv == "none":
+            recv = "cls"
+        if not isinstance(recv, str):
+            recv = ["inst", recv[1] % len(insts)] + list(recv[2:3])
+        return fi, recv, [val(x) for x in args], {"p%d" % n: val(v) for n, v in kw}
+
+    def do_sync(fi, recv, args, kw):
+        """the synchronous call f(args): AsyncDecorator.__call__ runs a task of its own to the end, no table access"""
+        fi, recv, a, k = args_of(fi, recv, args, kw)
+        foreign[0] += 1
+        try:
+            target(fi, recv)(*a, **k)
+        except Exception:  # noqa  (TypeError for arguments that do not bind: nothing to observe here)
+            pass
+        finally:
+            foreign[0] -= 1
+        feat("synchronous-call-in-mid-flight")
+        outside(6)
+
+    def do_mock(fi):
+        fi = fi % len(fns_decl)
+        holder = plain if fns_decl[fi]["kind"] == "func" else C
+        before = holder.__dict__.get("f%d" % fi)
+        try:
+            with asynq.mock.patch.object(holder, "f%d" % fi) as m:
+                m.asynq(1)
+                getattr(holder, "f%d" % fi).asynq(2)
+        except Exception:  # noqa
+            feat("mock-patch-raised")
+        if holder.__dict__.get("f%d" % fi) is not before:
+            feat("mock-patch-did-not-restore")
+        feat("mock-patch-in-mid-flight")
+        outside(3)
+
+    def do_gc():
+        gc.collect()
+        feat("gc-in-mid-flight")
+        outside(5)
+
+    def do_aio(fi, recv, args, kw, variant):
+        """asyncio mode, top level only: 0 `await f.asyncio(args)`; 1 / 2 an @asynq() function run by .asyncio() that yields
+        one / two `f.asynq(args)` (in asyncio mode .asynq() hands the call to .asyncio(): no task, no table)"""
+        import asyncio
+        fi, recv, a, k = args_of(fi, recv, args, kw)
+        f = target(fi, recv)
+
+        @asynq.asynq()
+        def outer():
+            if variant % 3 == 1:
+                return (yield f.asynq(*a, **k))
+            return (yield [f.asynq(*a, **k), f.asynq(*a, **k)])
+
+        async def direct():
+            return await f.asyncio(*a, **k)
+
+        foreign[0] += 1
+        try:
+            r = asyncio.run(direct() if variant % 3 == 0 else outer.asyncio())
+            feat("asyncio-mode-use:" + ("value" if r is not None else "none"))
+        except Exception as e:  # noqa
+            feat("asyncio-mode-use:raised-" + type(e).__name__)
+        finally:
+            foreign[0] -= 1
+        if size():
+            feat("asyncio-mode-use-while-entries-in-flight")
+        outside(1)
+
+    def do_drive(j, th):
+        """top level: a task that was created and never started is driven to completion by thread `th` (.value())"""
+        cand = [t for t in range(len(objs)) if t not in started and t not in done and not objs[t].is_computed()]
+        if not cand:
+            return
+        t = cand[j % len(cand)]
+        th = th % 3
+        feat("driven-by-" + ("creating-thread" if thtok(th) == made_on_tok.get(t) else "another-thread"))
+        try:
+            on_thread(th, objs[t].value)
+        except (UserErr, BaseErr):
+            pass
+
+    def do_outside(a):
+        if not alive[0]:
+            return True
+        if a[0] == "opt":
+            do_opt(a[1])
+        elif a[0] == "gc":
+            do_gc()
+        elif a[0] == "mock":
+            do_mock(a[1])
+        elif a[0] == "sync":
+            do_sync(a[1], a[2], a[3], a[4])
+        else:
+            return False
+        return True
+
     # ---- the body of every deduplicated function ------------------------------------------------
     def run(fi, params, rest, extra):
+        if not alive[0]:
+            return ("v", UNKNOWN)
+        if foreign[0]:
+            # a body started by the synchronous call f(args) or in asyncio mode: not a task of the history
+            feat("body-run-outside-the-history")
+            return ("v", UNKNOWN)
         task = asynq.scheduler.get_active_task()
         t = tok_of.get(id(task), UNKNOWN)
         r = runs[0]
@@ -1198,7 +1621,13 @@ def run_case(case):
 
         def inside(acts):
             last = None
+            if threading.current_thread() is not main_thread:
+                if acts:
+                    feat("inside-acts-skipped-on-driving-thread")
+                return None
             for a in acts:
+                if do_outside(a):
+                    continue
                 if a[0] == "self" and me is not None:
                     x, new = do_call(*me, inside=t)
                 elif a[0] == "dirtyself" and me is not None:
@@ -1229,16 +1658,25 @@ def run_case(case):
             elif y == "last" and last is not None:
                 dep = last
                 feat("await-of-inside-created-task")
+            elif y == "dsync":
+                # asynq's own DebugBatchItem instead of the harness batch; the debug batches are kept per thread and
+                # outlive a case, so every case uses a batch name of its own
+                dep = asynq.debug.sync("c12-%s" % sync_tag)
+                feat("blocked-on-debug-sync")
             else:
                 dep = HItem()
             log.append("(obs (suspend %d) (unit) %d)" % (t, size()))
             try:
                 yield dep
             except (UserErr, BaseErr):
+                if not alive[0]:
+                    return ("v", UNKNOWN)
                 resumed[t] = resumed.get(t, 0) + 1
                 log.append("(obs (resume %d 1) (unit) %d)" % (t, size()))
                 feat("resumed-by-throw")
             else:
+                if not alive[0]:
+                    return ("v", UNKNOWN)
                 resumed[t] = resumed.get(t, 0) + 1
                 log.append("(obs (resume %d 0) (unit) %d)" % (t, size()))
         inside(script.get("post", []))
@@ -1254,6 +1692,8 @@ def run_case(case):
     @asynq.asynq()
     def actor(phases):
         for ph in phases:
+            if not alive[0]:
+                return
             mine = []
             for a in ph["acts"]:
                 if a[0] == "call":
@@ -1266,6 +1706,8 @@ def run_case(case):
                     do_retire(a[1])
                 elif a[0] == "dirty":
                     do_dirty(a[1], a[2], a[3], a[4], a[5])
+                else:
+                    do_outside(a)
             w = ph["wait"]
             if w == "mine" and mine:
                 deps = list(mine)
@@ -1284,27 +1726,45 @@ def run_case(case):
     def root(actors):
         yield [actor.asynq(ph) for ph in actors]
 
-    try:
-        for a in case.get("top", []):
-            feat("top-level-" + ("dirty" if a[0] == "dirty" else "call"))
-            if a[0] == "dirty":
+    def top_level(acts):
+        for a in acts:
+            if do_outside(a):
+                continue
+            if a[0] == "drive":
+                do_drive(a[1], a[2])
+            elif a[0] == "aio":
+                do_aio(a[1], a[2], a[3], a[4], a[5])
+            elif a[0] == "dirty":
+                feat("top-level-dirty")
                 do_dirty(a[1], a[2], a[3], a[4], a[5])
-            else:
+            elif a[0] in ("call", "callx"):
+                feat("top-level-call")
                 do_call(a[1], a[2], a[3], a[4], a[5], keep=(a[0] == "call"))
+
+    try:
+        top_level(case.get("top", []))
         for actors in [case["actors"]] + list(case.get("more", [])):
             if computation[0]:
                 feat("later-top-level-computation")
                 if size():
                     feat("later-computation-sees-leftover-entries")
+            if computation[0] == 1:
+                top_level(case.get("top2", []))
             computation[0] += 1
             try:
                 root(actors)
             except (UserErr, BaseErr):
                 pass
+        if computation[0] == 1:
+            top_level(case.get("top2", []))
     finally:
+        alive[0] = False
         for w in list(workers.values()) + parked:
             w.stop()
         DeduplicateDecorator.tasks.clear()
+        for name, v in saved_opts.items():
+            setattr(dbg, name, v)
+        asynq.debug.stdout, asynq.debug.stderr = sink
 
     hdr = []
     for d in fns_decl:
@@ -1312,6 +1772,7 @@ def run_case(case):
             return " ".join("(%d %s)" % (nm, "none" if df is None else str(df)) for nm, df in l)
         hdr.append("(fn %s (%s) (%s) %d %d %d)" % (d["kind"], ps(d["pos"]), ps(d["kwonly"]),
                                                    1 if d["varargs"] else 0, 1 if d["varkw"] else 0, d.get("posonly", 0)))
+    hdr.append("(deco %d %s)" % (nfn, " ".join("(%d %d)" % (fi, outer_of[fi]) for fi in order)))
     lines = ["(case dedup %d %s)" % (case["id"], " ".join(hdr))] + log + ["(end)"]
     fl = sorted(feats)
     fl += ["kind=" + k for k in sorted({d["kind"] for d in fns_decl})]
